@@ -55,7 +55,10 @@ RULE = ("seeded random file trees: 2-3 search paths (+0-2 directories reached th
         "(depth<=3) from the names {a,b,sub} plus 0-2 names per tree that are no identifiers or are keywords but importable "
         "(hyphen, leading digit, keyword, spaces, punctuation, non-ASCII, __main__, upper-case twin) in 1-3 forms each (x.py, x.pyi, x/ with and without __init__.py, "
         "x.cpython-312-x86_64-linux-gnu.so, x.abi3.so, x.so, x.pyd, x.pyc, x.cpython-312.pyc, x.pyo, extension-less x, "
-        "x.txt, x.y.py, x.y.pyi, ...) plus __pycache__, hidden and dotted directories, data files; in half of the trees a "
+        "x.txt, x.y.py, x.y.pyi, ...) plus __pycache__, hidden and dotted directories, data files; 40% of the trees get 1-3 symbolic "
+        "links (directory links to packages / namespace directories outside every search path, into another portion, whole "
+        "top-level portions, chains, absolute targets, inside linked directories and inside pkg-stubs; file links module->module, "
+        "__init__.py->other name, module->some __init__.py, stubs, chains; dangling links; a self-cycle); in half of the trees a "
         "part of one path's entries is repeated in a later path so that equal names of equal form meet across paths. Each "
         "tree is loaded under K listing orders by name and by path. distinct = digest of the tree; non-trivial = >=2 search "
         "paths and >=1 dotted name provided by >=2 different file-system entries")
@@ -84,9 +87,19 @@ REQUIRED_COUNTERS = ["trees_judged", "loaded_modules_checked_against_find_spec",
                      "by_file_path_toplevel_module_file", "by_file_path_submodule_file", "by_file_path_stub_only_file",
                      "by_file_path_in_namespace_package", "by_file_path_outside_search_paths", "by_file_path_missing_checked",
                      "loaded_modules_with_unusual_name_checked", "walker_unusual_names_checked",
-                     "walker_unusual_package_names_checked", "walker_modules_below_unusual_package_checked"]
+                     "walker_unusual_package_names_checked", "walker_modules_below_unusual_package_checked",
+                     "link_trees_judged", "walker_modules_through_directory_link_checked", "walker_modules_from_file_link_checked",
+                     "walker_packages_with_linked_init_checked", "classification_through_directory_link_checked",
+                     "classification_init_link_to_other_name_checked", "classification_module_link_to_init_checked",
+                     "namespace_portions_through_link_checked", "loaded_stub_files_through_or_from_link_checked"]
 EXHAUSTIVE = {"quick": False, "thorough": False}
-ASSUMPTIONS = ["legacy namespace packages: the reference child has no pkg_resources, so every generated declaration reaches "
+ASSUMPTIONS = ["symbolic links: CPython follows them everywhere and goes by the LINK's name (spec.origin and __path__ keep the link "
+               "path); Griffe's file paths are compared as spelled, links not resolved (the tree's root is a real path). A name the "
+               "walker lists only because a dangling / looping link is named like a module is not a module (CPython cannot import "
+               "it). A self-cycle (d/loop -> .) repeats a small directory until the kernel's limit of 40 links per path; both sides "
+               "stop there. Requests BY PATH that lead through a link (or name x.py next to a link x) are not judged: which dotted "
+               "name such a path has is not said by the statement (the finder names it after the link's target)",
+               "legacy namespace packages: the reference child has no pkg_resources, so every generated declaration reaches "
                "pkgutil.extend_path (directly or in the except-ImportError branch); bare pkg_resources declarations and "
                "<name>.pkg files are not generated. Whether such a package is *called* package or namespace package is not "
                "judged (Griffe: namespace package, CPython: regular package with an extended __path__); its portions, the "
@@ -376,8 +389,194 @@ def gen_case(rng: random.Random, perms: int) -> dict:
                 if rng.random() < 0.15:
                     lines.append("{ROOT}/missing-dir")
             files[f"{sp}/{pth}"] = "\n".join(lines) + "\n"
-    return {"search": search, "files": dict(sorted(files.items())), "dirs": sorted(set(dirs)), "request": TOP,
+    links: dict[str, str] = {}
+    link_kinds: dict[str, str] = {}
+    if rng.random() < 0.4:
+        add_links(rng, search, files, dirs, links, link_kinds, legacy_sub)
+    case = {"search": search, "files": dict(sorted(files.items())), "dirs": sorted(set(dirs)), "request": TOP,
             "find_stubs_package": stubs_pkg, "perms": perms, "perm_seed": rng.randrange(1 << 30)}
+    if links:
+        case["links"] = dict(sorted(links.items()))
+        case["link_kinds"] = dict(sorted(link_kinds.items()))
+    return case
+
+
+# symbolic links: CPython follows them everywhere and goes by the LINK's name (spec.origin keeps the link path)
+LINK_KINDS = [("dir-to-shared-package", 4), ("dir-to-shared-namespace", 2), ("dir-to-other-portion", 3), ("dir-top-level-portion", 3),
+              ("dir-chain", 2), ("dir-in-stubs-package", 3), ("dir-absolute-target", 1), ("file-module", 3),
+              ("file-init-to-other-name", 4), ("file-module-to-init", 3), ("file-stub", 2), ("file-chain", 1),
+              ("dangling-file", 1), ("dangling-dir", 1)]
+# (a self-cycle is added to 2% of the link trees only: both sides walk it 40 levels deep, the kernel's limit of links per path)
+
+
+def add_links(rng: random.Random, search: list, files: dict, dirs: list, links: dict, kinds: dict, legacy_sub: float) -> None:  # noqa: C901, PLR0912, PLR0915
+    """1-3 symbolic links: sub-package / namespace directories pointing outside every search path (``shared/``), into another
+    portion or search path, whole top-level portions, chains, links inside linked directories and inside <name>-stubs, module
+    / __init__ / stub file links (also to differently named files), dangling links and a self-cycle."""
+    names, weights = zip(*LINK_KINDS)
+    pool = ("a", "b", "sub", "lnk", "plugins") + _EXTRA_NAMES
+    counter = [0]
+
+    def fresh(prefix: str) -> str:
+        counter[0] += 1
+        return f"shared/{prefix}{counter[0]}"
+
+    def package_dirs(stubs: bool = False) -> list[str]:
+        tops = {f"{r}/{TOP}-stubs" if stubs else f"{r}/{TOP}" for r in {k.split("/")[0] for k in list(files) + list(dirs)}}
+        out = set()
+        for k in list(files) + [d + "/." for d in dirs]:
+            d = os.path.dirname(k)
+            while d.count("/") >= 1:
+                if any(d == t or d.startswith(t + "/") for t in tops) and "__pycache__" not in d.split("/") \
+                        and not any(part.startswith(".") or "." in part for part in d.split("/")[2:]):
+                    out.add(d)
+                d = os.path.dirname(d)
+        return sorted(h for h in out | {h for h in hosts_extra if not stubs} if not any(h == c or h.startswith(c + "/") for c in cyclic))
+
+    def free(path: str) -> bool:
+        if path in links or any(path.startswith(k + "/") or k.startswith(path + "/") for k in links):
+            return False
+        return _can_add(files, dirs, path)
+
+    def place(host_dirs: list[str], suffix: str = "") -> str | None:
+        for _ in range(8):
+            if not host_dirs:
+                return None
+            cand = f"{rng.choice(host_dirs)}/{rng.choice(pool)}{suffix}"
+            if free(cand):
+                return cand
+        return None
+
+    def rel(link: str, target: str) -> str:
+        return os.path.relpath(target, os.path.dirname(link))
+
+    def fill(d: str, init: bool, stubs_only: bool = False) -> None:
+        before = len(files)
+        if init:
+            n = f"{d}/__init__.pyi" if stubs_only else f"{d}/__init__.py"
+            files[n] = _content(rng, n)
+        gen_dir(rng, files, dirs, d, 2, stubs_only, legacy_sub)
+        if len(files) == before + (1 if init else 0):
+            n = f"{d}/x.pyi" if stubs_only else f"{d}/x.py"
+            files[n] = _content(rng, n)
+        if stubs_only:
+            for k in [k for k in files if k.startswith(d + "/") and k.endswith(".py")]:
+                if os.path.basename(k).count(".") == 1:
+                    files[k + "i"] = _content(rng, k + "i")
+                del files[k]
+
+    hosts_extra: list[str] = []
+    cyclic: list[str] = []          # directories repeated without end by a cycle: nothing else is put there
+    for _ in range(rng.choice([1, 1, 2, 2, 3])):
+        kind = "cycle-self" if rng.random() < 0.02 else rng.choices(names, weights)[0]
+        hosts = package_dirs()
+        link = target = None
+        if kind in ("dir-to-shared-package", "dir-to-shared-namespace", "dir-chain", "dir-absolute-target"):
+            link = place(hosts)
+            if link:
+                real = fresh("d")
+                fill(real, init=kind != "dir-to-shared-namespace")
+                hosts_extra.append(real)           # later links may sit inside this linked directory
+                target = rel(link, real)
+                if kind == "dir-chain":
+                    mid = fresh("l")
+                    links[mid] = rel(mid, real)
+                    kinds[mid] = "dir-chain-middle"
+                    target = rel(link, mid)
+                elif kind == "dir-absolute-target":
+                    target = "{ROOT}/" + real
+        elif kind == "dir-to-other-portion":
+            targets = [d for d in hosts if d.count("/") >= 2]
+            if targets:
+                real = rng.choice(targets)
+                # (not inside the target itself: that would be a cycle)
+                others = [h for h in hosts if not (h == real or h.startswith(real + "/"))]
+                if others:
+                    host = rng.choice(others)
+                    cand = f"{host}/{os.path.basename(real) if rng.random() < 0.5 else rng.choice(pool)}"
+                    if free(cand):
+                        link, target = cand, rel(cand, real)
+        elif kind == "dir-top-level-portion":
+            empty = [sp for sp in search if not any(k.startswith(f"{sp}/{TOP}") for k in list(files) + list(dirs) + list(links))]
+            if empty:
+                sp = rng.choice(empty)
+                base = fresh("t")
+                gen_top(rng, files, dirs, base, rng.choice(["regular", "namespace", "namespace", "legacyns"]), legacy_sub)
+                if not any(k.startswith(f"{base}/{TOP}/") for k in files):
+                    files[f"{base}/{TOP}/x.py"] = ""
+                link = f"{sp}/{TOP}"
+                target = rel(link, f"{base}/{TOP}")
+        elif kind == "dir-in-stubs-package":
+            shosts = package_dirs(stubs=True)
+            link = place(shosts)
+            if link:
+                real = fresh("s")
+                fill(real, init=rng.random() < 0.8, stubs_only=True)
+                target = rel(link, real)
+        elif kind == "file-module":
+            mods = [k for k in files if k.endswith(".py") and os.path.basename(k).count(".") == 1 and not os.path.basename(k).startswith("__init__")
+                    and os.path.dirname(k) in hosts]
+            link = place(hosts, ".py")
+            if link:
+                if mods and rng.random() < 0.6:
+                    real = rng.choice(mods)
+                else:
+                    real = fresh("m") + ".py"
+                    files[real] = _content(rng, real)
+                target = rel(link, real)
+        elif kind == "file-init-to-other-name":
+            sub = place(hosts)
+            if sub:
+                impl = f"{os.path.dirname(sub)}/_{os.path.basename(sub)}_impl.py" if rng.random() < 0.6 else fresh("i") + ".py"
+                if impl not in files and free(impl):
+                    files[impl] = _content(rng, impl)
+                    files[f"{sub}/x.py"] = _content(rng, f"{sub}/x.py")
+                    if rng.random() < 0.4:
+                        gen_dir(rng, files, dirs, sub, 3, False, legacy_sub)
+                    link, target = f"{sub}/__init__.py", rel(f"{sub}/__init__.py", impl)
+        elif kind == "file-module-to-init":
+            inits = [k for k in files if os.path.basename(k) == "__init__.py" and os.path.dirname(k) in hosts]
+            link = place(hosts, ".py")
+            if link and inits:
+                target = rel(link, rng.choice(inits))
+            else:
+                link = None
+        elif kind == "file-stub":
+            link = place(hosts, ".pyi")
+            if link:
+                real = fresh("st") + ".pyi"
+                files[real] = _content(rng, real)
+                target = rel(link, real)
+        elif kind == "file-chain":
+            link = place(hosts, ".py")
+            if link:
+                real, mid = fresh("r") + ".py", fresh("c") + ".py"
+                files[real] = _content(rng, real)
+                links[mid] = rel(mid, real)
+                kinds[mid] = "file-chain-middle"
+                target = rel(link, mid)
+        elif kind == "dangling-file":
+            link = place(hosts, rng.choice([".py", ".py", ".pyi"]))
+            target = "nowhere.py"
+        elif kind == "dangling-dir":
+            link = place(hosts)
+            target = "nowhere"
+        elif kind == "cycle-self":
+            sub = place(hosts)
+            if sub:
+                # (a regular package, so that CPython's walker goes down the cycle too; as a native namespace directory the
+                # walker would not enter it and every find_spec recalculates the whole chain of parent paths)
+                files[f"{sub}/__init__.py"] = _content(rng, f"{sub}/__init__.py")
+                files[f"{sub}/x.py"] = _content(rng, f"{sub}/x.py")
+                link, target = f"{sub}/loop", "."
+                cyclic.append(sub)
+        if link and target:
+            links[link] = target
+            kinds[link] = kind
+            if kind.startswith("dir-") and _link_cycle({"search": search, "files": files, "dirs": dirs, "links": links}, set(cyclic)):
+                del links[link], kinds[link]        # (two links that lead into each other: a cycle with branches, kept out)
+
+
 
 
 # ------------------------------------------------------------------------------------------
@@ -390,6 +589,109 @@ def write_tree(case: dict, root: str) -> None:
         os.makedirs(os.path.dirname(p), exist_ok=True)
         with open(p, "w", encoding="latin-1") as fh:
             fh.write(content.replace("{ROOT}", root))
+    for rel, target in case.get("links", {}).items():
+        p = os.path.join(root, rel)
+        os.makedirs(os.path.dirname(p), exist_ok=True)
+        os.symlink(target.replace("{ROOT}", root), p)
+
+
+def _link_target(case: dict, link: str) -> str | None:
+    """Where a link points, relative to the root (None: outside the tree)."""
+    target = case["links"][link]
+    t = target[len("{ROOT}/"):] if target.startswith("{ROOT}/") else os.path.normpath(os.path.join(os.path.dirname(link), target))
+    return None if t.startswith("..") or os.path.isabs(t) else t
+
+
+def resolve_entry(case: dict, path: str) -> str | None:
+    """The real entry a (virtual) path leads to, following links component by component; None: dangling or a loop."""
+    links = case.get("links", {})
+    cur = ""
+    hops = 0
+    for comp in path.split("/"):
+        cur = f"{cur}/{comp}" if cur else comp
+        while cur in links:
+            hops += 1
+            cur = _link_target(case, cur)
+            if cur is None or hops > 64:
+                return None
+            if any("/".join(cur.split("/")[:i]) in links for i in range(1, cur.count("/") + 1)):
+                cur = resolve_entry(case, cur)          # a link below a link
+                if cur is None:
+                    return None
+    return cur
+
+
+def _link_cycle(case: dict, allowed: set) -> bool:
+    """Following links leads from some directory back into itself (other than the deliberate self-cycles in ``allowed``)."""
+    links = case["links"]
+    kinds: dict[str, str] = {f: "file" for f in case["files"]}
+    for e in list(kinds) + list(case["search"]) + list(case["dirs"]) + list(links):
+        parts = e.split("/")
+        for i in range(1, len(parts) + (0 if e in kinds or e in links else 1)):
+            kinds.setdefault("/".join(parts[:i]), "dir")
+    children: dict[str, set[str]] = {}
+    for e in list(kinds) + list(links):
+        if "/" in e:
+            children.setdefault(e.rsplit("/", 1)[0], set()).add(e)
+    state: dict[str, int] = {}
+
+    def visit(d: str) -> bool:
+        state[d] = 1
+        for c in sorted(children.get(d, ())):
+            r = resolve_entry(case, c)
+            if r is None or kinds.get(r) != "dir" or (r == d and d in allowed):
+                continue
+            if state.get(r) == 1 or (r not in state and visit(r)):
+                return True
+        state[d] = 2
+        return False
+
+    return any(d not in state and visit(d) for d in sorted(k for k, v in kinds.items() if v == "dir"))
+
+
+def source_text(case: dict, root: str, path: str) -> str:
+    """The generated text of the file a path (possibly through links) leads to."""
+    rel = os.path.relpath(path, root).replace(os.sep, "/")
+    real = resolve_entry(case, rel) if case.get("links") else rel
+    return case["files"].get(real or "", "")
+
+
+def virtual_entries(case: dict, max_parts: int = 50) -> dict[str, str]:
+    """Every path below the root reachable by following links -> 'file' / 'dir' / 'dangling' (depth-bounded: a link
+    cycle repeats the tree without end)."""
+    links = case.get("links", {})
+    kinds: dict[str, str] = {}
+    for f in case["files"]:
+        kinds[f] = "file"
+    for d in list(case["search"]) + list(case.get("dirs", [])):
+        kinds.setdefault(d, "dir")
+    for e in list(kinds) + list(links):
+        parts = e.split("/")
+        for i in range(1, len(parts)):
+            kinds.setdefault("/".join(parts[:i]), "dir")
+    if not links:
+        return kinds
+    children: dict[str, set[str]] = {}
+    for e in list(kinds) + list(links):
+        if "/" in e:
+            children.setdefault(e.rsplit("/", 1)[0], set()).add(e.rsplit("/", 1)[1])
+    out: dict[str, str] = {}
+    stack = [(t, t) for t in sorted({e.split("/")[0] for e in list(kinds) + list(links)})]
+    while stack:
+        virt, real = stack.pop()
+        out[virt] = "dir"
+        for name in sorted(children.get(real, ())):
+            v = f"{virt}/{name}"
+            r = resolve_entry(case, f"{real}/{name}")
+            if r is None or r not in kinds:
+                out[v] = "dangling"
+            elif kinds[r] == "file":
+                out[v] = "file"
+            elif v.count("/") + 1 < max_parts:
+                stack.append((v, r))
+            else:
+                out[v] = "dir"
+    return out
 
 
 def has_pth(case: dict) -> bool:
@@ -403,13 +705,7 @@ def _base(component: str) -> str:
 def name_providers(case: dict) -> dict[str, set[str]]:
     """dotted name -> file-system entries (relative) that could provide it, for every name the tree can spell."""
     out: dict[str, set[str]] = {}
-    entries = set(case["files"]) | set(case.get("dirs", []))
-    alld = set()
-    for e in entries:
-        parts = e.split("/")
-        for i in range(2, len(parts)):
-            alld.add("/".join(parts[:i]))
-    for e in sorted(entries | alld):
+    for e in sorted(e for e in virtual_entries(case) if "/" in e):
         parts = e.split("/")[1:]
         if not parts or any(p.startswith(".") or p == "__pycache__" for p in parts):
             continue
@@ -460,7 +756,7 @@ def describe(name):
         return {"found": False}
     locs = spec.submodule_search_locations
     out = {"found": True, "origin": spec.origin if spec.has_location else None,
-           "locations": None if locs is None else [os.path.realpath(p) for p in locs],
+           "locations": None if locs is None else [os.path.abspath(p) for p in locs],
            "loader": type(spec.loader).__name__ if spec.loader is not None else None, "extended": False}
     if locs is not None and (out["origin"] is None or out["origin"].endswith(".py")):
         # a package's search locations are those of the *imported* package: its __init__ may extend __path__ (legacy
@@ -469,7 +765,7 @@ def describe(name):
         out["spec_locations"] = out["locations"]
         try:
             mod = importlib.import_module(name)
-            out["locations"] = [os.path.realpath(p) for p in mod.__path__]
+            out["locations"] = [os.path.abspath(p) for p in mod.__path__]
             out["extended"] = name in EXTENDED
         except BaseException as exc:
             out["import_error"] = type(exc).__name__ + ": " + str(exc)[:200]
@@ -687,7 +983,25 @@ class Problem:
 
 
 def _rp(p: str | None) -> str | None:
-    return None if p is None else os.path.realpath(p)
+    # normalised, links NOT resolved: the tree's root is a real path, so every path below it is comparable as it is spelled -
+    # and a link's own name is what the import system goes by
+    return None if p is None else os.path.normpath(os.path.abspath(p))
+
+
+def link_on_the_way(path: str | None, root: str) -> tuple[bool, bool]:
+    """(some directory between the root and the file is a symbolic link, the last component itself is one)."""
+    if not path:
+        return False, False
+    path = _rp(path)
+    last = os.path.islink(path)
+    d = os.path.dirname(path)
+    through = False
+    while len(d) > len(root):
+        if os.path.islink(d):
+            through = True
+            break
+        d = os.path.dirname(d)
+    return through, last
 
 
 def portions_agree(griffe_dirs: set, cpython_dirs: set, is_top: bool) -> bool:
@@ -703,6 +1017,21 @@ def expected_flags(kind: str, top: bool) -> list[bool]:
     if kind == "namespace":
         return [False, False, False, top, not top]
     return [False, False, False, False, False]
+
+
+def _dangling_provider(name: str, specs: dict) -> bool:
+    parent = specs.get(name.rsplit(".", 1)[0]) or {}
+    last = name.rsplit(".", 1)[-1]
+    for loc in parent.get("locations") or []:
+        try:
+            entries = os.listdir(loc)
+        except OSError:
+            continue
+        for e in entries:
+            p = os.path.join(loc, e)
+            if e.split(".", 1)[0] == last and os.path.islink(p) and not os.path.exists(p):
+                return True
+    return False
 
 
 def judge_against_cpython(case: dict, root: str, ref: dict, obs: dict, rec) -> list[Problem]:  # noqa: ANN001, C901, PLR0912, PLR0915
@@ -799,8 +1128,22 @@ def judge_against_cpython(case: dict, root: str, ref: dict, obs: dict, rec) -> l
                                         os.path.relpath(desc["origin"], root) if desc["origin"] else desc))
             else:
                 rec.count("first_path_wins_checked")
-        # classification follows the files
+        # classification follows the files - for a link: the LINK's name (CPython never looks at what it points to)
         rec.count("classification_checks")
+        if not isinstance(f, list) and case.get("links"):
+            through, last = link_on_the_way(desc.get("origin") if kind in ("package", "module") else f, root)
+            if through:
+                rec.count("classification_through_directory_link_checked")
+            if last and kind in ("package", "module"):
+                real_is_init = os.path.basename(os.path.realpath(desc["origin"])).startswith("__init__.")
+                if kind == "package" and not real_is_init:
+                    rec.count("classification_init_link_to_other_name_checked")
+                elif kind == "module" and real_is_init:
+                    rec.count("classification_module_link_to_init_checked")
+                else:
+                    rec.count("classification_file_link_same_kind_checked")
+        elif isinstance(f, list) and case.get("links") and any(os.path.islink(p) or link_on_the_way(p, root)[0] for p in f):
+            rec.count("namespace_portions_through_link_checked")
         want = expected_flags(gkind, is_top)
         if info["flags"] != want:
             problems.append(Problem("classification", name, f"{name}: classification properties do not follow its files "
@@ -813,6 +1156,8 @@ def judge_against_cpython(case: dict, root: str, ref: dict, obs: dict, rec) -> l
         if outcome != "loaded" or not f.endswith((".py", ".pyi")):
             continue
         rec.count("file_spells_name_checked")
+        if case.get("links") and f.endswith(".pyi") and any(link_on_the_way(f, root)):
+            rec.count("loaded_stub_files_through_or_from_link_checked")
         stem = os.path.basename(f).rsplit(".", 1)[0]
         spelled = os.path.basename(os.path.dirname(f)) if stem == "__init__" else stem
         last = dotted.rsplit(".", 1)[-1]
@@ -823,6 +1168,23 @@ def judge_against_cpython(case: dict, root: str, ref: dict, obs: dict, rec) -> l
     for name, ispkg in ref["walk"]:
         rec.count("walker_modules_checked")
         comps = name.split(".")[1:]
+        desc = specs.get(name) or {}
+        kind = ref_kind(desc)
+        if case.get("links"):
+            if kind in ("absent", "namespace") and not ispkg and _dangling_provider(name, specs):
+                # the walker lists names from the directory listing without looking at the files: a dangling (or looping)
+                # link named like a module is listed, but CPython cannot import it - not a module (a same-named directory
+                # without __init__.py may make the name importable as a namespace package: the walker would not list that)
+                rec.count("walker_dangling_link_names_not_judged")
+                mf = mods.get(name, {}).get("file")
+                if isinstance(mf, str) and os.path.islink(mf) and not os.path.exists(mf):
+                    problems.append(Problem("not-importable", name, f"{name}: loaded from a dangling link", mods[name], desc))
+                continue
+            through, last = link_on_the_way(desc.get("origin") or (desc.get("locations") or [None])[0], root)
+            if through:
+                rec.count("walker_modules_through_directory_link_checked")
+            if last:
+                rec.count("walker_packages_with_linked_init_checked" if ispkg else "walker_modules_from_file_link_checked")
         if unusual(comps[-1]):
             # a name `import` could not spell, yet found by CPython's package walker (and imported by it when a package)
             rec.count("walker_unusual_names_checked")
@@ -831,8 +1193,6 @@ def judge_against_cpython(case: dict, root: str, ref: dict, obs: dict, rec) -> l
                 rec.count("walker_unusual_package_names_checked")
         if any(unusual(c) for c in comps[:-1]):
             rec.count("walker_modules_below_unusual_package_checked")
-        desc = specs.get(name) or {}
-        kind = ref_kind(desc)
         pdesc = specs.get(name.rsplit(".", 1)[0]) or {}
         where = desc.get("origin") or (desc.get("locations") or [None])[0]
         if where and pdesc.get("locations") and not _under(where, pdesc["locations"][0]):
@@ -993,7 +1353,7 @@ def classify(case: dict, root: str, ref: dict, obs: dict, problems: list[Problem
         # literal declaration but CPython did not execute it (a comment / string): a regular package for CPython, while Griffe
         # made it a namespace portion (top-level module is a list of directories, or a later regular package / module won)
         if not parent and ref_kind(tdesc) == "package" and not tdesc.get("extended") and info \
-                and INLINE_DECLARATION.search(case["files"].get(os.path.relpath(tdesc["origin"], root).replace(os.sep, "/"), "")):
+                and INLINE_DECLARATION.search(source_text(case, root, tdesc["origin"])):
             if p.kind == "classification" and isinstance(info["file"], list):
                 p.finding = "C14-mentioned-declaration-taken-as-namespace"
                 continue
@@ -1040,7 +1400,7 @@ def classify(case: dict, root: str, ref: dict, obs: dict, problems: list[Problem
                 if "." in a:
                     verdict = "C14-nested-legacy-namespace-not-merged"
                 else:
-                    text = case["files"].get(os.path.relpath(adesc["origin"], root).replace(os.sep, "/"), "")
+                    text = source_text(case, root, adesc["origin"])
                     if declares_namespace(text) and not INLINE_DECLARATION.search(text):
                         verdict = "C14-extend-path-declaration-not-recognised"
                 break
@@ -1095,14 +1455,15 @@ def _stub_replace_pins(case: dict, root: str, diff_at: str) -> set[str]:
     """Directories listing the providers of a dotted name that has >= 2 source providers (x.py, x/__init__.py, possibly
     in different portions) and >= 1 stub provider, when the difference lies below that module."""
     pins: set[str] = set()
+    entries = virtual_entries(case)         # (paths as the loader meets them: through links too)
     for name, provs in name_providers(case).items():
         files_of = []
         for e in provs:
-            if e in case["files"]:
+            if entries.get(e) == "file":
                 files_of.append(e)
             else:
                 files_of += [f"{e}/__init__.py", f"{e}/__init__.pyi"]
-        files_of = [f for f in files_of if f in case["files"]]
+        files_of = [f for f in files_of if entries.get(f) == "file"]
         nsrc = sum(1 for f in files_of if f.endswith(".py") and os.path.basename(f).count(".") == 1)
         nstub = sum(1 for f in files_of if f.endswith(".pyi") and os.path.basename(f).count(".") == 1)
         chain = name.split(".")[1:]
@@ -1114,7 +1475,7 @@ def _stub_replace_pins(case: dict, root: str, diff_at: str) -> set[str]:
 def _dotted_pyi_pins(case: dict, root: str, diff_at: str) -> set[str]:
     """Directories holding a stub x.<more>.pyi when the difference lies at / below module x of that directory."""
     pins: set[str] = set()
-    for f in case["files"]:
+    for f in (e for e, k in virtual_entries(case).items() if k == "file"):
         b = os.path.basename(f)
         if b.endswith(".pyi") and "." in b[:-4] and not b.startswith("."):
             chain = os.path.dirname(f).split("/")[2:] + [b.split(".", 1)[0]]
@@ -1193,6 +1554,16 @@ def file_request_candidates(case: dict, ref: dict, obs: dict, problems: list[Pro
     out: list[dict] = []
 
     def add(cat: str, name: str, path: str) -> None:
+        out.append({"cat": cat, "name": name, "path": path, "in_namespace": top_is_namespace})
+
+    linked = bool(case.get("links"))
+
+    def add(cat: str, name: str, path: str) -> None:  # noqa: F811
+        if linked and os.path.realpath(path) != _rp(path):
+            return          # a path that leads through a link: which dotted name it has is not judged (see ASSUMPTIONS)
+        if linked and os.path.isfile(path) and os.path.islink(os.path.join(os.path.dirname(path), os.path.basename(path).split(".", 1)[0])):
+            return          # x.py next to a LINK named x: reported to the lead (the finder resolves 'x' and names the module after
+            #                 the link's target), kept out of the domain until it is recorded or repaired
         out.append({"cat": cat, "name": name, "path": path, "in_namespace": top_is_namespace})
 
     for name in sorted(mods):
@@ -1319,6 +1690,10 @@ def run_case(rec, case: dict) -> None:  # noqa: ANN001, C901, PLR0912, PLR0915
             try:
                 base = observe(case, root, 0, case["request"])
                 rec.count("trees_judged")
+                if case.get("links"):
+                    rec.count("link_trees_judged")
+                    for lk in case.get("link_kinds", {}).values():
+                        rec.count("links_" + lk.replace("-", "_"))
                 if has_pth(case):
                     rec.count("pth_trees_judged")
                 problems += judge_against_cpython(case, root, ref, base, rec)
@@ -1347,6 +1722,9 @@ def run_case(rec, case: dict) -> None:  # noqa: ANN001, C901, PLR0912, PLR0915
                     for t_i, target in enumerate(targets):
                         if not os.path.isdir(target) or os.path.basename(target) != case["request"]:
                             continue        # the statement speaks of the package's top-level *directory* only
+                        if os.path.realpath(target) != _rp(target):
+                            rec.count("by_path_through_link_not_judged")    # which name a path reached through a link has: not judged
+                            continue
                         for k in sorted({0, 1 + ((t_i + case.get("perm_seed", 0)) % max(1, K - 1))} & set(by_k)):
                             bp = observe(case, root, k, Path(target))
                             rec.count("by_path_compared")
